@@ -463,6 +463,18 @@ class SymNum(Sym):
     def __rmod__(self, o):
         return _arith(self, o, 'mod', rev=True)
 
+    def __divmod__(self, o):
+        q = _arith(self, o, 'floordiv')
+        if q is NotImplemented:
+            return NotImplemented
+        return q, _arith(self, o, 'mod')
+
+    def __rdivmod__(self, o):
+        q = _arith(self, o, 'floordiv', rev=True)
+        if q is NotImplemented:
+            return NotImplemented
+        return q, _arith(self, o, 'mod', rev=True)
+
     def __neg__(self):
         return wrap(z3.simplify(-self.z))
 
@@ -717,6 +729,32 @@ class SymF64(Sym):
             raise ZeroDivisionError('float modulo')
         return wrapf(py_float_mod(zo, self.z))
 
+    def __divmod__(self, o):
+        zo = _lift_f64(o)
+        if zo is None:
+            return NotImplemented
+        if engine().decide(z3.fpIsZero(zo)):
+            raise ZeroDivisionError('float divmod()')
+        q, r = py_float_divmod(self.z, zo)
+        return wrapf(q), wrapf(r)
+
+    def __rdivmod__(self, o):
+        zo = _lift_f64(o)
+        if zo is None:
+            return NotImplemented
+        if engine().decide(z3.fpIsZero(self.z)):
+            raise ZeroDivisionError('float divmod()')
+        q, r = py_float_divmod(zo, self.z)
+        return wrapf(q), wrapf(r)
+
+    def __floordiv__(self, o):
+        r = self.__divmod__(o)
+        return r if r is NotImplemented else r[0]
+
+    def __rfloordiv__(self, o):
+        r = self.__rdivmod__(o)
+        return r if r is NotImplemented else r[0]
+
     def __neg__(self):
         return wrapf(z3.fpNeg(self.z))
 
@@ -805,6 +843,32 @@ def py_float_mod(x, y):
     adj = z3.If(x_neg, z3.fpNeg(ay), ay)
     need = z3.And(z3.Not(z3.fpIsZero(r)), z3.fpIsNegative(r) != x_neg)
     fm = z3.If(need, z3.fpAdd(_rne(), r, adj), r)
+    return _py_mod_from_fmod(fm, y)
+
+
+def _c_fmod(x, y):
+    r = z3.fpRem(x, y)
+    ay = z3.fpAbs(y)
+    x_neg = z3.fpIsNegative(x)
+    adj = z3.If(x_neg, z3.fpNeg(ay), ay)
+    need = z3.And(z3.Not(z3.fpIsZero(r)), z3.fpIsNegative(r) != x_neg)
+    return z3.If(need, z3.fpAdd(_rne(), r, adj), r)
+
+
+def py_float_divmod(x, y):
+    """z3 terms (floordiv, mod) of CPython's float_divmod (y != 0), operation by operation."""
+    fm = _c_fmod(x, y)
+    div = z3.fpDiv(_rne(), z3.fpSub(_rne(), x, fm), y)
+    adjust = z3.And(z3.Not(z3.fpIsZero(fm)), z3.fpIsNegative(y) != z3.fpIsNegative(fm))
+    div = z3.If(adjust, z3.fpSub(_rne(), div, z3.FPVal(1.0, F64())), div)
+    fl = z3.fpRoundToIntegral(z3.RTN(), div)
+    fl = z3.If(z3.fpGT(z3.fpSub(_rne(), div, fl), z3.FPVal(0.5, F64())), z3.fpAdd(_rne(), fl, z3.FPVal(1.0, F64())), fl)
+    quot = z3.fpDiv(_rne(), x, y)
+    zero_q = z3.If(z3.fpIsNegative(quot), z3.fpMinusZero(F64()), z3.fpPlusZero(F64()))
+    return z3.If(z3.fpIsZero(div), zero_q, fl), _py_mod_from_fmod(fm, y)
+
+
+def _py_mod_from_fmod(fm, y):
     # CPython: if mod != 0 and (y < 0) != (mod < 0): mod += y; else if mod == 0:
     # mod = copysign(0, y)
     zero = z3.fpIsZero(fm)
